@@ -261,7 +261,9 @@ SummaryViolationsOf(o, i) ==
       RowGroup(k) == IntsOf(o[sumId].cols.group[k])
   IN (IF {RowKey(k) : k \in SumIdx} = AllKeys THEN {} ELSE {"C12.keys"})
      \cup (IF \A k1, k2 \in SumIdx : k1 # k2 => RowKey(k1) # RowKey(k2) THEN {} ELSE {"C12.dup"})
-     \cup (IF \A k \in SumIdx : RowKey(k) \in AllKeys => RowGroup(k) = Expected(RowKey(k))
+     \* (the `group` helper column can be removed or renamed by the user: then only keys are judged)
+     \cup (IF "group" \notin DOMAIN o[sumId].cols THEN {}
+          ELSE IF \A k \in SumIdx : RowKey(k) \in AllKeys => RowGroup(k) = Expected(RowKey(k))
           THEN {} ELSE {"C12.group"})
 
 SummaryViolations(o) ==
